@@ -201,11 +201,28 @@ class Element(ABC):
         ] = self._parameter_default_upper_limit.copy()
         self._parameter_fixed: Dict[str, bool] = self._parameter_default_fixed.copy()
 
+    def _set_limits(
+        self,
+        lower_limits: Dict[str, float],
+        upper_limits: Dict[str, float],
+    ) -> "Element":
+        # Apply new lower and upper limits in an order that never requires
+        # a new lower limit to be compared against a stale upper limit.
+        key: str
+        value: float
+        for key, value in lower_limits.items():
+            if key in upper_limits and key in self._parameter_upper_limit:
+                if float(value) >= self._parameter_upper_limit[key]:
+                    self.set_upper_limits(key, upper_limits[key])
+
+            self.set_lower_limits(key, value)
+
+        return self.set_upper_limits(**upper_limits)
+
     def __copy__(self) -> "Element":
         return (
             type(self)()
-            .set_lower_limits(**self.get_lower_limits())
-            .set_upper_limits(**self.get_upper_limits())
+            ._set_limits(self.get_lower_limits(), self.get_upper_limits())
             .set_values(**self.get_values())
             .set_fixed(**self.are_fixed())
             .set_label(self._label)
@@ -542,8 +559,10 @@ class Element(ABC):
             The values can be anything.
         """
         self.set_values(**self.get_default_values(*args, **kwargs))
-        self.set_lower_limits(**self.get_default_lower_limits(*args, **kwargs))
-        self.set_upper_limits(**self.get_default_upper_limits(*args, **kwargs))
+        self._set_limits(
+            self.get_default_lower_limits(*args, **kwargs),
+            self.get_default_upper_limits(*args, **kwargs),
+        )
         self.set_fixed(**self.are_fixed_by_default(*args, **kwargs))
 
     def reset_parameter(self, key: str):
@@ -556,8 +575,10 @@ class Element(ABC):
             A string key corresponding to a parameter.
         """
         self.set_values(key, self.get_default_value(key))
-        self.set_lower_limits(key, self.get_default_lower_limit(key))
-        self.set_upper_limits(key, self.get_default_upper_limit(key))
+        self._set_limits(
+            {key: self.get_default_lower_limit(key)},
+            {key: self.get_default_upper_limit(key)},
+        )
         self.set_fixed(key, self.is_fixed_by_default(key))
 
     def are_fixed(self, *args, **kwargs) -> Dict[str, bool]:
@@ -1675,8 +1696,7 @@ class Container(Element):
                     for k, v in self.get_subcircuits().items()
                 },
             )
-            .set_lower_limits(**self.get_lower_limits())
-            .set_upper_limits(**self.get_upper_limits())
+            ._set_limits(self.get_lower_limits(), self.get_upper_limits())
             .set_fixed(**self.are_fixed())
             .set_label(self._label)
         )
@@ -1694,8 +1714,7 @@ class Container(Element):
                         for k, v in self.get_subcircuits().items()
                     },
                 )
-                .set_lower_limits(**self.get_lower_limits())
-                .set_upper_limits(**self.get_upper_limits())
+                ._set_limits(self.get_lower_limits(), self.get_upper_limits())
                 .set_fixed(**self.are_fixed())
                 .set_label(self._label)
             )
